@@ -56,6 +56,22 @@ def writable(target, e: dict) -> bool:
     return True
 
 
+FIELD_BYTES = [0, 1, 23, 24, 59, 60, 99, 100, 101, 127, 128, 0x55, 0xC1, 0xF9, 0xFA, 0xFE, 0xFF]
+
+
+def field_sweep(base_hex: str, full: bool) -> list[dict]:
+    """One byte of a well-formed group at a time set to every boundary value (thorough: to every value): the encodable domain
+    and the encoding of each result are decided by Decode.tla, not here."""
+    base = bytes.fromhex(base_hex)
+    out = []
+    for pos in range(len(base)):
+        for v in (range(256) if full else FIELD_BYTES):
+            b = bytearray(base)
+            b[pos] = v
+            out.append({"bytes": list(b)})
+    return out
+
+
 def sample_values(e: dict, rnd: random.Random, n_random: int) -> list:
     ty = e["ty"]
     if ty == "Integer":
@@ -91,7 +107,8 @@ def sample_values(e: dict, rnd: random.Random, n_random: int) -> list:
             out.append(bytes([rnd.randrange(24), rnd.randrange(60), rnd.randrange(24), rnd.randrange(60)]).hex() +
                        (rnd.randint(-100, 100) & 0xFFFF).to_bytes(2, "big").hex() + rnd.choice(["00", "ff"]) +
                        bytes([rnd.choice([rnd.randrange(128), rnd.randrange(128), 0xFF])]).hex())
-        return [{"bytes": list(bytes.fromhex(x))} for x in out]
+        sweep = field_sweep("0d1e0e28ffc4ff1a", n_random > 8) if e["id"].endswith(("_1", "mode")) else []
+        return [{"bytes": list(bytes.fromhex(x))} for x in out] + sweep
     if ty in ("EcoModeV2", "PeakShavingMode"):
         out = ["0000173bff7fffce00640000", "0000173bff7f003200640000", "0000173bf97ffe0c00640fff", "300030000000006400640000",
                "0000173bfc7f006400640000", "0300080006fefd12005fcfff", "0000173bffffffce00640000", "0102030400ff000a00320fff"]
@@ -103,7 +120,8 @@ def sample_values(e: dict, rnd: random.Random, n_random: int) -> list:
                               rnd.choice([rnd.randrange(128), rnd.randrange(128), 0xFF])]).hex() +
                        (pw & 0xFFFF).to_bytes(2, "big").hex() + rnd.randint(0, 100).to_bytes(2, "big").hex() +
                        rnd.choice([0, 0x0FFF, rnd.randrange(1, 0x0FFF)]).to_bytes(2, "big").hex())
-        return [{"bytes": list(bytes.fromhex(x))} for x in out]
+        sweep = field_sweep("0d1e0e28ff1affc400500000", n_random > 8) if e["id"].endswith(("_1", "mode")) else []
+        return [{"bytes": list(bytes.fromhex(x))} for x in out] + sweep
     return []
 
 
